@@ -64,15 +64,21 @@ def check_template(ctx, t, sweep=True):
         if o.exc is not None:
             ctx.violation("C04:raised:" + type(o.exc).__name__, f"run raised {o.exc!r}; sequential loop gives {core.short(R['values'])}", case)
             continue
+        # classifier of the known finding: a node fed by a value that is re-produced EQUAL in every iteration is not
+        # re-triggered (versions advance on change only); witness: only that consumer's count / output deviates
+        def eq_mech(names):
+            return ":equal-value-reproduction" if R.get("mechanism") == "equal-value-reproduction" and set(names) <= {"acc", "total"} else ""
+
         if o.values != R["values"]:
-            ctx.violation("C04:values", f"{runner}: final values {core.short(o.values)} differ from the sequential while-loop {core.short(R['values'])}", case)
+            diffk = [k for k in set(o.values or {}) | set(R["values"]) if (o.values or {}).get(k, "<absent>") != R["values"].get(k, "<absent>")]
+            ctx.violation("C04:values" + eq_mech(diffk), f"{runner}: final values {core.short(o.values)} differ from the sequential while-loop {core.short(R['values'])}", case)
         got = counts_of(o.rec, spec["name"])
         for n, c in R["counts"].items():
             fid = f"{spec['name']}/{n}"
             ctx.obs["counts_compared"] += 1
             if got.get(fid, 0) != c:
                 ctx.violation(
-                    "C04:count:" + ("fewer" if got.get(fid, 0) < c else "more"),
+                    "C04:count:" + ("fewer" + eq_mech([n]) if got.get(fid, 0) < c else "more"),
                     f"{runner}: {fid} executed {got.get(fid, 0)} times, the while-loop executes it {c} times (all counts: got {got}, expected {R['counts']})",
                     case,
                 )
@@ -159,6 +165,7 @@ def run(ctx):
             lambda: loops.nested_loop(N, 0, 1, "route", 1),
             lambda: loops.two_acc_loop(N, 0),
             lambda: loops.lagged_signal_loop(N, N % 3),
+            lambda: loops.const_feed_loop(N, N % 2),
         ):
             if ctx.shard[0] != sysn % ctx.shard[1]:
                 sysn += 1
